@@ -1,1 +1,1334 @@
-//! refpdf::crypto — not written yet.
+//! refpdf::crypto — reference cryptography for the PDF standard security handler.
+//!
+//! Written from the standards, independent of the library under test:
+//!  * RC4 as published (Schneier, "Applied Cryptography"; vectors RFC 6229),
+//!  * AES from FIPS-197 (S-box *derived* from the GF(2^8) inverse + affine map of §5.1.1,
+//!    key expansion §5.2, cipher §5.1, inverse cipher §5.3), CBC mode (SP 800-38A §6.2),
+//!    PKCS#7 padding (RFC 5652 §6.3),
+//!  * ISO 32000-1 §7.6.2 Algorithm 1 and §7.6.3.3/4 Algorithms 2–7 (revisions 2–4),
+//!  * ISO 32000-2 §7.6.3.3, §7.6.4.3/4 Algorithms 1.A, 2.A, 2.B, 8–13 (revision 6) and the
+//!    Adobe Supplement to ISO 32000 (ExtensionLevel 3) revision 5 = the same algorithms with
+//!    a plain SHA-256 in place of Algorithm 2.B.
+//! Hashes come from the `md5` and `sha2` crates.
+//!
+//! Validation (unit tests at the end): FIPS-197 appendix vectors, SP 800-38A CBC vectors,
+//! RFC 6229 RC4 vectors, and — the binding to qpdf and pypdf — every encrypted fixture under
+//! /repo/oxidize-pdf-core/tests/fixtures must decrypt to its plaintext original.
+//!
+//! Passwords are byte strings here. For revisions 5/6 the caller supplies the UTF-8 form
+//! (after SASLprep, which this module does not implement); for revisions 2–4 the
+//! PDFDocEncoding form.
+
+use crate::file::PdfFile;
+use crate::syntax::{write_obj, Dict, Obj, StreamObj};
+use sha2::{Digest, Sha256, Sha384, Sha512};
+use std::collections::BTreeMap;
+use std::sync::{Arc, Mutex, OnceLock};
+
+// ====================================================================== RC4
+
+pub fn rc4(key: &[u8], data: &[u8]) -> Vec<u8> {
+    assert!(!key.is_empty() && key.len() <= 256, "RC4 key length {}", key.len());
+    let mut s: [u8; 256] = [0; 256];
+    for (i, v) in s.iter_mut().enumerate() {
+        *v = i as u8;
+    }
+    let mut j: u8 = 0;
+    for i in 0..256 {
+        j = j.wrapping_add(s[i]).wrapping_add(key[i % key.len()]);
+        s.swap(i, j as usize);
+    }
+    let (mut i, mut j) = (0u8, 0u8);
+    let mut out = Vec::with_capacity(data.len());
+    for &b in data {
+        i = i.wrapping_add(1);
+        j = j.wrapping_add(s[i as usize]);
+        s.swap(i as usize, j as usize);
+        let k = s[(s[i as usize].wrapping_add(s[j as usize])) as usize];
+        out.push(b ^ k);
+    }
+    out
+}
+
+// ====================================================================== AES (FIPS-197)
+
+struct Tables {
+    sbox: [u8; 256],
+    inv: [u8; 256],
+    m2: [u8; 256],
+    m3: [u8; 256],
+    m9: [u8; 256],
+    m11: [u8; 256],
+    m13: [u8; 256],
+    m14: [u8; 256],
+}
+
+/// multiplication in GF(2^8) modulo x^8 + x^4 + x^3 + x + 1 (§4.2)
+fn gmul(mut a: u8, mut b: u8) -> u8 {
+    let mut p = 0u8;
+    for _ in 0..8 {
+        if b & 1 != 0 {
+            p ^= a;
+        }
+        let hi = a & 0x80;
+        a <<= 1;
+        if hi != 0 {
+            a ^= 0x1b;
+        }
+        b >>= 1;
+    }
+    p
+}
+
+fn tables() -> &'static Tables {
+    static T: OnceLock<Tables> = OnceLock::new();
+    T.get_or_init(|| {
+        let mut t = Tables { sbox: [0; 256], inv: [0; 256], m2: [0; 256], m3: [0; 256], m9: [0; 256], m11: [0; 256], m13: [0; 256], m14: [0; 256] };
+        for x in 0..256usize {
+            // multiplicative inverse (0 maps to 0), by search
+            let mut inv = 0u8;
+            if x != 0 {
+                for y in 1..256usize {
+                    if gmul(x as u8, y as u8) == 1 {
+                        inv = y as u8;
+                        break;
+                    }
+                }
+            }
+            // affine transformation §5.1.1 eq. 5.1 with c = 0x63
+            let s = inv ^ inv.rotate_left(1) ^ inv.rotate_left(2) ^ inv.rotate_left(3) ^ inv.rotate_left(4) ^ 0x63;
+            t.sbox[x] = s;
+            t.inv[s as usize] = x as u8;
+            t.m2[x] = gmul(x as u8, 2);
+            t.m3[x] = gmul(x as u8, 3);
+            t.m9[x] = gmul(x as u8, 9);
+            t.m11[x] = gmul(x as u8, 11);
+            t.m13[x] = gmul(x as u8, 13);
+            t.m14[x] = gmul(x as u8, 14);
+        }
+        t
+    })
+}
+
+pub struct Aes {
+    rk: Vec<[u8; 16]>,
+    nr: usize,
+}
+
+impl Aes {
+    /// key of 16, 24 or 32 bytes
+    pub fn new(key: &[u8]) -> Aes {
+        let nk = key.len() / 4;
+        assert!(key.len() % 4 == 0 && (nk == 4 || nk == 6 || nk == 8), "AES key length {}", key.len());
+        let t = tables();
+        let nr = nk + 6;
+        let total = 4 * (nr + 1);
+        let mut w: Vec<[u8; 4]> = Vec::with_capacity(total);
+        for i in 0..nk {
+            w.push([key[4 * i], key[4 * i + 1], key[4 * i + 2], key[4 * i + 3]]);
+        }
+        let mut rcon = 1u8;
+        for i in nk..total {
+            let mut temp = w[i - 1];
+            if i % nk == 0 {
+                temp = [t.sbox[temp[1] as usize] ^ rcon, t.sbox[temp[2] as usize], t.sbox[temp[3] as usize], t.sbox[temp[0] as usize]];
+                rcon = gmul(rcon, 2);
+            } else if nk > 6 && i % nk == 4 {
+                temp = [t.sbox[temp[0] as usize], t.sbox[temp[1] as usize], t.sbox[temp[2] as usize], t.sbox[temp[3] as usize]];
+            }
+            let p = w[i - nk];
+            w.push([p[0] ^ temp[0], p[1] ^ temp[1], p[2] ^ temp[2], p[3] ^ temp[3]]);
+        }
+        let mut rk = Vec::with_capacity(nr + 1);
+        for r in 0..=nr {
+            let mut k = [0u8; 16];
+            for c in 0..4 {
+                k[4 * c..4 * c + 4].copy_from_slice(&w[4 * r + c]);
+            }
+            rk.push(k);
+        }
+        Aes { rk, nr }
+    }
+
+    pub fn round_keys(&self) -> &[[u8; 16]] {
+        &self.rk
+    }
+
+    fn add(s: &mut [u8; 16], k: &[u8; 16]) {
+        for i in 0..16 {
+            s[i] ^= k[i];
+        }
+    }
+
+    /// state byte (row r, column c) lives at index 4c + r (§3.4)
+    pub fn encrypt_block(&self, block: &mut [u8; 16]) {
+        let t = tables();
+        Self::add(block, &self.rk[0]);
+        for round in 1..=self.nr {
+            // SubBytes + ShiftRows
+            let mut n = [0u8; 16];
+            for c in 0..4 {
+                for r in 0..4 {
+                    n[4 * c + r] = t.sbox[block[4 * ((c + r) % 4) + r] as usize];
+                }
+            }
+            if round != self.nr {
+                // MixColumns
+                for c in 0..4 {
+                    let (a0, a1, a2, a3) = (n[4 * c] as usize, n[4 * c + 1] as usize, n[4 * c + 2] as usize, n[4 * c + 3] as usize);
+                    block[4 * c] = t.m2[a0] ^ t.m3[a1] ^ a2 as u8 ^ a3 as u8;
+                    block[4 * c + 1] = a0 as u8 ^ t.m2[a1] ^ t.m3[a2] ^ a3 as u8;
+                    block[4 * c + 2] = a0 as u8 ^ a1 as u8 ^ t.m2[a2] ^ t.m3[a3];
+                    block[4 * c + 3] = t.m3[a0] ^ a1 as u8 ^ a2 as u8 ^ t.m2[a3];
+                }
+            } else {
+                *block = n;
+            }
+            Self::add(block, &self.rk[round]);
+        }
+    }
+
+    pub fn decrypt_block(&self, block: &mut [u8; 16]) {
+        let t = tables();
+        Self::add(block, &self.rk[self.nr]);
+        for round in (0..self.nr).rev() {
+            // InvShiftRows + InvSubBytes
+            let mut n = [0u8; 16];
+            for c in 0..4 {
+                for r in 0..4 {
+                    n[4 * c + r] = t.inv[block[4 * ((c + 4 - r) % 4) + r] as usize];
+                }
+            }
+            Self::add(&mut n, &self.rk[round]);
+            if round != 0 {
+                for c in 0..4 {
+                    let (a0, a1, a2, a3) = (n[4 * c] as usize, n[4 * c + 1] as usize, n[4 * c + 2] as usize, n[4 * c + 3] as usize);
+                    block[4 * c] = t.m14[a0] ^ t.m11[a1] ^ t.m13[a2] ^ t.m9[a3];
+                    block[4 * c + 1] = t.m9[a0] ^ t.m14[a1] ^ t.m11[a2] ^ t.m13[a3];
+                    block[4 * c + 2] = t.m13[a0] ^ t.m9[a1] ^ t.m14[a2] ^ t.m11[a3];
+                    block[4 * c + 3] = t.m11[a0] ^ t.m13[a1] ^ t.m9[a2] ^ t.m14[a3];
+                }
+            } else {
+                *block = n;
+            }
+        }
+    }
+}
+
+/// CBC encryption of whole blocks (no padding). `data.len()` must be a multiple of 16.
+pub fn aes_cbc_encrypt_nopad(key: &[u8], iv: &[u8; 16], data: &[u8]) -> Vec<u8> {
+    assert!(data.len() % 16 == 0, "CBC without padding needs whole blocks");
+    let a = Aes::new(key);
+    let mut prev = *iv;
+    let mut out = Vec::with_capacity(data.len());
+    for ch in data.chunks(16) {
+        let mut b = [0u8; 16];
+        for i in 0..16 {
+            b[i] = ch[i] ^ prev[i];
+        }
+        a.encrypt_block(&mut b);
+        out.extend_from_slice(&b);
+        prev = b;
+    }
+    out
+}
+
+pub fn aes_cbc_decrypt_nopad(key: &[u8], iv: &[u8; 16], data: &[u8]) -> Vec<u8> {
+    assert!(data.len() % 16 == 0, "CBC without padding needs whole blocks");
+    let a = Aes::new(key);
+    let mut prev = *iv;
+    let mut out = Vec::with_capacity(data.len());
+    for ch in data.chunks(16) {
+        let mut b = [0u8; 16];
+        b.copy_from_slice(ch);
+        let c = b;
+        a.decrypt_block(&mut b);
+        for i in 0..16 {
+            b[i] ^= prev[i];
+        }
+        out.extend_from_slice(&b);
+        prev = c;
+    }
+    out
+}
+
+/// RFC 5652 §6.3: pad with k bytes of value k, 1 ≤ k ≤ 16 (a full block when already aligned)
+pub fn pkcs7_pad(data: &[u8]) -> Vec<u8> {
+    let k = 16 - data.len() % 16;
+    let mut v = data.to_vec();
+    v.extend(std::iter::repeat(k as u8).take(k));
+    v
+}
+
+pub fn pkcs7_unpad(data: &[u8]) -> Result<Vec<u8>, String> {
+    let Some(&k) = data.last() else { return Err("empty padded data".into()) };
+    if data.len() % 16 != 0 {
+        return Err(format!("padded length {} is not a multiple of 16", data.len()));
+    }
+    if k == 0 || k > 16 || !data[data.len() - k as usize..].iter().all(|&b| b == k) {
+        return Err(format!("invalid PKCS#7 padding (last byte {k})"));
+    }
+    Ok(data[..data.len() - k as usize].to_vec())
+}
+
+/// ciphertext only (no IV prefix)
+pub fn aes_cbc_pkcs7_encrypt(key: &[u8], iv: &[u8; 16], data: &[u8]) -> Vec<u8> {
+    aes_cbc_encrypt_nopad(key, iv, &pkcs7_pad(data))
+}
+
+pub fn aes_cbc_pkcs7_decrypt(key: &[u8], iv: &[u8; 16], ct: &[u8]) -> Result<Vec<u8>, String> {
+    if ct.is_empty() || ct.len() % 16 != 0 {
+        return Err(format!("ciphertext length {} is not a positive multiple of 16", ct.len()));
+    }
+    pkcs7_unpad(&aes_cbc_decrypt_nopad(key, iv, ct))
+}
+
+/// PDF convention (ISO 32000-1 §7.6.2): 16-byte IV followed by the CBC ciphertext.
+pub fn pdf_aes_encrypt(key: &[u8], iv: &[u8; 16], data: &[u8]) -> Vec<u8> {
+    let mut v = iv.to_vec();
+    v.extend(aes_cbc_pkcs7_encrypt(key, iv, data));
+    v
+}
+
+pub fn pdf_aes_decrypt(key: &[u8], data: &[u8]) -> Result<Vec<u8>, String> {
+    if data.len() < 32 {
+        return Err(format!("AES data of {} bytes is shorter than IV + one block", data.len()));
+    }
+    let mut iv = [0u8; 16];
+    iv.copy_from_slice(&data[..16]);
+    aes_cbc_pkcs7_decrypt(key, &iv, &data[16..])
+}
+
+// ====================================================================== hashes
+
+pub fn md5(parts: &[&[u8]]) -> [u8; 16] {
+    let mut c = md5::Context::new();
+    for p in parts {
+        c.consume(p);
+    }
+    c.finalize().0
+}
+
+pub fn sha256(parts: &[&[u8]]) -> [u8; 32] {
+    let mut h = Sha256::new();
+    for p in parts {
+        h.update(p);
+    }
+    h.finalize().into()
+}
+
+// ====================================================================== ISO 32000-1 Algorithms 1–7
+
+/// §7.6.3.3 Algorithm 2 step (a) padding string
+pub const PAD: [u8; 32] = [
+    0x28, 0xBF, 0x4E, 0x5E, 0x4E, 0x75, 0x8A, 0x41, 0x64, 0x00, 0x4E, 0x56, 0xFF, 0xFA, 0x01, 0x08, 0x2E, 0x2E, 0x00, 0xB6, 0xD0, 0x68, 0x3E, 0x80, 0x2F, 0x0C, 0xA9, 0xFE, 0x64, 0x53, 0x69, 0x7A,
+];
+
+/// Algorithm 2 (a): truncate to 32 bytes or fill up from the start of PAD
+pub fn pad_password(pw: &[u8]) -> [u8; 32] {
+    let mut out = [0u8; 32];
+    let n = pw.len().min(32);
+    out[..n].copy_from_slice(&pw[..n]);
+    out[n..].copy_from_slice(&PAD[..32 - n]);
+    out
+}
+
+/// Algorithm 2: file encryption key from the user password. `key_len` in bytes (5 for R2).
+pub fn alg2_file_key(user_pw: &[u8], o: &[u8], p: i32, id0: &[u8], r: u8, key_len: usize, encrypt_metadata: bool) -> Vec<u8> {
+    let n = if r == 2 { 5 } else { key_len };
+    let padded = pad_password(user_pw);
+    let pbytes = (p as u32).to_le_bytes();
+    let mut parts: Vec<&[u8]> = vec![&padded, o, &pbytes, id0];
+    let ff = [0xFFu8; 4];
+    if r >= 4 && !encrypt_metadata {
+        parts.push(&ff);
+    }
+    let mut h = md5(&parts);
+    if r >= 3 {
+        for _ in 0..50 {
+            h = md5(&[&h[..n]]);
+        }
+    }
+    h[..n].to_vec()
+}
+
+/// Algorithm 3 steps (a)–(d): the RC4 key derived from the owner password
+pub fn alg3_owner_rc4_key(owner_pw: &[u8], r: u8, key_len: usize) -> Vec<u8> {
+    let n = if r == 2 { 5 } else { key_len };
+    let mut h = md5(&[&pad_password(owner_pw)]);
+    if r >= 3 {
+        for _ in 0..50 {
+            h = md5(&[&h]);
+        }
+    }
+    h[..n].to_vec()
+}
+
+fn xor_key(key: &[u8], i: u8) -> Vec<u8> {
+    key.iter().map(|b| b ^ i).collect()
+}
+
+/// Algorithm 3: the /O entry. An empty owner password means "use the user password" (step a).
+pub fn alg3_o(owner_pw: &[u8], user_pw: &[u8], r: u8, key_len: usize) -> [u8; 32] {
+    let opw = if owner_pw.is_empty() { user_pw } else { owner_pw };
+    let key = alg3_owner_rc4_key(opw, r, key_len);
+    let mut v = rc4(&key, &pad_password(user_pw));
+    if r >= 3 {
+        for i in 1..=19u8 {
+            v = rc4(&xor_key(&key, i), &v);
+        }
+    }
+    v.try_into().unwrap()
+}
+
+/// Algorithm 4: /U for revision 2
+pub fn alg4_u(file_key: &[u8]) -> [u8; 32] {
+    rc4(file_key, &PAD).try_into().unwrap()
+}
+
+/// Algorithm 5: the first 16 bytes of /U for revisions 3 and 4 (the other 16 are arbitrary)
+pub fn alg5_u16(file_key: &[u8], id0: &[u8]) -> [u8; 16] {
+    let h = md5(&[&PAD, id0]);
+    let mut v = rc4(file_key, &h);
+    for i in 1..=19u8 {
+        v = rc4(&xor_key(file_key, i), &v);
+    }
+    v.try_into().unwrap()
+}
+
+/// Parameters of a revision 2–4 handler as found in the encryption dictionary
+#[derive(Clone, Debug)]
+pub struct Rc4Params<'a> {
+    pub r: u8,
+    pub key_len: usize,
+    pub o: &'a [u8],
+    pub u: &'a [u8],
+    pub p: i32,
+    pub id0: &'a [u8],
+    pub encrypt_metadata: bool,
+}
+
+/// Algorithm 6: authenticate the user password; the file key on success
+pub fn alg6_user(pw: &[u8], q: &Rc4Params) -> Option<Vec<u8>> {
+    let key = alg2_file_key(pw, q.o, q.p, q.id0, q.r, q.key_len, q.encrypt_metadata);
+    let ok = if q.r == 2 { q.u.len() >= 32 && alg4_u(&key)[..] == q.u[..32] } else { q.u.len() >= 16 && alg5_u16(&key, q.id0)[..] == q.u[..16] };
+    ok.then_some(key)
+}
+
+/// Algorithm 7 steps (a)–(b): the (padded) user password recovered from /O with this owner password
+pub fn alg7_recover_user_pw(owner_pw: &[u8], o: &[u8], r: u8, key_len: usize) -> Vec<u8> {
+    let key = alg3_owner_rc4_key(owner_pw, r, key_len);
+    let o = &o[..o.len().min(32)];
+    if r == 2 {
+        rc4(&key, o)
+    } else {
+        let mut v = o.to_vec();
+        for i in (0..=19u8).rev() {
+            v = rc4(&xor_key(&key, i), &v);
+        }
+        v
+    }
+}
+
+/// Algorithm 7: authenticate the owner password; the file key on success
+pub fn alg7_owner(pw: &[u8], q: &Rc4Params) -> Option<Vec<u8>> {
+    let upw = alg7_recover_user_pw(pw, q.o, q.r, q.key_len);
+    alg6_user(&upw, q)
+}
+
+/// Algorithm 1 (a)–(d): per-object key. `aes` adds the "sAlT" suffix (AESV2 crypt filter).
+pub fn alg1_object_key(file_key: &[u8], num: u32, gen: u16, aes: bool) -> Vec<u8> {
+    let nb = num.to_le_bytes();
+    let gb = gen.to_le_bytes();
+    let mut parts: Vec<&[u8]> = vec![file_key, &nb[..3], &gb[..2]];
+    if aes {
+        parts.push(b"sAlT");
+    }
+    let h = md5(&parts);
+    h[..(file_key.len() + 5).min(16)].to_vec()
+}
+
+// ====================================================================== ISO 32000-2 Algorithms 2.A, 2.B, 8–13
+
+/// passwords of revisions 5/6 are limited to 127 bytes of UTF-8 (Algorithm 2.A (a))
+pub fn truncate_127(pw: &[u8]) -> &[u8] {
+    &pw[..pw.len().min(127)]
+}
+
+/// Algorithm 2.B: the revision 6 hash. `udata` is empty for user hashes, the 48-byte /U for owner hashes.
+/// Round counting follows the reading shared by Adobe-interoperable producers (qpdf, pypdf,
+/// MuPDF): the test "last byte of E ≤ rounds − 32" uses the number of rounds completed.
+pub fn alg2b_hash(pw: &[u8], salt: &[u8], udata: &[u8]) -> [u8; 32] {
+    let mut k: Vec<u8> = sha256(&[pw, salt, udata]).to_vec();
+    let mut rounds: u32 = 0;
+    loop {
+        // (a)
+        let mut k1 = Vec::with_capacity((pw.len() + k.len() + udata.len()) * 64);
+        for _ in 0..64 {
+            k1.extend_from_slice(pw);
+            k1.extend_from_slice(&k);
+            k1.extend_from_slice(udata);
+        }
+        // (b)
+        let mut iv = [0u8; 16];
+        iv.copy_from_slice(&k[16..32]);
+        let e = aes_cbc_encrypt_nopad(&k[..16], &iv, &k1);
+        // (c) first 16 bytes as a big-endian number modulo 3; 256 ≡ 1 (mod 3) so the byte sum decides
+        let m = e[..16].iter().map(|&b| b as u32).sum::<u32>() % 3;
+        // (d)
+        k = match m {
+            0 => Sha256::digest(&e).to_vec(),
+            1 => Sha384::digest(&e).to_vec(),
+            _ => Sha512::digest(&e).to_vec(),
+        };
+        rounds += 1;
+        // (e),(f)
+        let last = *e.last().unwrap() as u32;
+        if rounds >= 64 && last + 32 <= rounds {
+            break;
+        }
+    }
+    k[..32].try_into().unwrap()
+}
+
+/// the hash of revision `r` (5: SHA-256, 6: Algorithm 2.B)
+pub fn hash_r56(r: u8, pw: &[u8], salt: &[u8], udata: &[u8]) -> [u8; 32] {
+    if r == 5 {
+        sha256(&[pw, salt, udata])
+    } else {
+        alg2b_hash(pw, salt, udata)
+    }
+}
+
+const ZERO_IV: [u8; 16] = [0; 16];
+
+/// Algorithm 8: /U (48 bytes) and /UE (32 bytes)
+pub fn alg8_u_ue(r: u8, user_pw: &[u8], file_key: &[u8; 32], vsalt: &[u8; 8], ksalt: &[u8; 8]) -> ([u8; 48], [u8; 32]) {
+    let pw = truncate_127(user_pw);
+    let mut u = [0u8; 48];
+    u[..32].copy_from_slice(&hash_r56(r, pw, vsalt, &[]));
+    u[32..40].copy_from_slice(vsalt);
+    u[40..48].copy_from_slice(ksalt);
+    let ik = hash_r56(r, pw, ksalt, &[]);
+    let ue = aes_cbc_encrypt_nopad(&ik, &ZERO_IV, file_key);
+    (u, ue.try_into().unwrap())
+}
+
+/// Algorithm 9: /O (48 bytes) and /OE (32 bytes)
+pub fn alg9_o_oe(r: u8, owner_pw: &[u8], file_key: &[u8; 32], vsalt: &[u8; 8], ksalt: &[u8; 8], u: &[u8; 48]) -> ([u8; 48], [u8; 32]) {
+    let pw = truncate_127(owner_pw);
+    let mut o = [0u8; 48];
+    o[..32].copy_from_slice(&hash_r56(r, pw, vsalt, u));
+    o[32..40].copy_from_slice(vsalt);
+    o[40..48].copy_from_slice(ksalt);
+    let ik = hash_r56(r, pw, ksalt, u);
+    let oe = aes_cbc_encrypt_nopad(&ik, &ZERO_IV, file_key);
+    (o, oe.try_into().unwrap())
+}
+
+/// Algorithm 10 (a)–(e): the 16 plaintext bytes of /Perms
+pub fn alg10_perms_plain(p: i32, encrypt_metadata: bool, tail: [u8; 4]) -> [u8; 16] {
+    let mut b = [0u8; 16];
+    b[..4].copy_from_slice(&(p as u32).to_le_bytes());
+    b[4..8].copy_from_slice(&[0xFF; 4]);
+    b[8] = if encrypt_metadata { b'T' } else { b'F' };
+    b[9..12].copy_from_slice(b"adb");
+    b[12..16].copy_from_slice(&tail);
+    b
+}
+
+/// Algorithm 10: /Perms (AES-256, ECB, no IV)
+pub fn alg10_perms(p: i32, encrypt_metadata: bool, file_key: &[u8; 32], tail: [u8; 4]) -> [u8; 16] {
+    let mut b = alg10_perms_plain(p, encrypt_metadata, tail);
+    Aes::new(file_key).encrypt_block(&mut b);
+    b
+}
+
+/// Algorithm 11
+pub fn alg11_user_ok(r: u8, pw: &[u8], u: &[u8]) -> bool {
+    u.len() >= 48 && hash_r56(r, truncate_127(pw), &u[32..40], &[])[..] == u[..32]
+}
+
+/// Algorithm 12
+pub fn alg12_owner_ok(r: u8, pw: &[u8], o: &[u8], u: &[u8]) -> bool {
+    o.len() >= 48 && u.len() >= 48 && hash_r56(r, truncate_127(pw), &o[32..40], &u[..48])[..] == o[..32]
+}
+
+#[derive(Clone, Copy, Debug, PartialEq, Eq, Hash)]
+pub enum Which {
+    User,
+    Owner,
+}
+
+/// Algorithm 2.A (a)–(e): file key from either password; the owner test comes first.
+pub fn alg2a_file_key(r: u8, pw: &[u8], o: &[u8], u: &[u8], oe: &[u8], ue: &[u8]) -> Option<(Which, [u8; 32])> {
+    let pw = truncate_127(pw);
+    if oe.len() < 32 || ue.len() < 32 {
+        return None;
+    }
+    if alg12_owner_ok(r, pw, o, u) {
+        let ik = hash_r56(r, pw, &o[40..48], &u[..48]);
+        let k = aes_cbc_decrypt_nopad(&ik, &ZERO_IV, &oe[..32]);
+        return Some((Which::Owner, k.try_into().unwrap()));
+    }
+    if alg11_user_ok(r, pw, u) {
+        let ik = hash_r56(r, pw, &u[40..48], &[]);
+        let k = aes_cbc_decrypt_nopad(&ik, &ZERO_IV, &ue[..32]);
+        return Some((Which::User, k.try_into().unwrap()));
+    }
+    None
+}
+
+/// Algorithm 13 / 2.A (f): decrypt /Perms and check it against /P and /EncryptMetadata
+pub fn alg13_perms_check(perms: &[u8], file_key: &[u8; 32], p: i32, encrypt_metadata: bool) -> Result<(), String> {
+    if perms.len() < 16 {
+        return Err(format!("/Perms has {} bytes", perms.len()));
+    }
+    let mut b = [0u8; 16];
+    b.copy_from_slice(&perms[..16]);
+    Aes::new(file_key).decrypt_block(&mut b);
+    if &b[9..12] != b"adb" {
+        return Err("decrypted /Perms lacks 'adb' at bytes 9..11".into());
+    }
+    if b[..4] != (p as u32).to_le_bytes() {
+        return Err(format!("decrypted /Perms permissions {:02x?} differ from /P {p}", &b[..4]));
+    }
+    let want = if encrypt_metadata { b'T' } else { b'F' };
+    if b[8] != want {
+        return Err(format!("decrypted /Perms byte 8 is {:?}, /EncryptMetadata says {:?}", b[8] as char, want as char));
+    }
+    Ok(())
+}
+
+pub fn alg13_perms_plain(perms: &[u8], file_key: &[u8; 32]) -> [u8; 16] {
+    let mut b = [0u8; 16];
+    b.copy_from_slice(&perms[..16]);
+    Aes::new(file_key).decrypt_block(&mut b);
+    b
+}
+
+// ====================================================================== reading encrypted files
+
+/// crypt filter method (ISO 32000-1 Table 25, ISO 32000-2 adds AESV3)
+#[derive(Clone, Copy, Debug, PartialEq, Eq, Hash)]
+pub enum Cfm {
+    Identity,
+    Rc4,
+    AesV2,
+    AesV3,
+}
+
+#[derive(Clone, Debug)]
+pub struct EncInfo {
+    pub v: i64,
+    pub r: u8,
+    /// file key length in bytes
+    pub key_len: usize,
+    pub p: i32,
+    pub o: Vec<u8>,
+    pub u: Vec<u8>,
+    pub oe: Vec<u8>,
+    pub ue: Vec<u8>,
+    pub perms: Vec<u8>,
+    /// as written (default true); only effective for V >= 4
+    pub encrypt_metadata: bool,
+    pub stmf: Cfm,
+    pub strf: Cfm,
+    pub filters: BTreeMap<Vec<u8>, Cfm>,
+    pub id0: Vec<u8>,
+    /// object number of the encryption dictionary when it is an indirect object
+    pub encrypt_obj: Option<u32>,
+}
+
+impl EncInfo {
+    pub fn metadata_encrypted(&self) -> bool {
+        self.v < 4 || self.encrypt_metadata
+    }
+    pub fn rc4_params(&self) -> Rc4Params<'_> {
+        Rc4Params { r: self.r, key_len: self.key_len, o: &self.o, u: &self.u, p: self.p, id0: &self.id0, encrypt_metadata: self.encrypt_metadata }
+    }
+}
+
+fn str_entry(d: &Dict, k: &str) -> Vec<u8> {
+    d.get(k).and_then(|o| o.as_str_bytes()).map(|s| s.to_vec()).unwrap_or_default()
+}
+
+/// Read /Encrypt and /ID of the newest trailer (ISO 32000-1 Tables 20, 21, 25).
+pub fn read_enc_info(f: &PdfFile) -> Result<EncInfo, String> {
+    let e = f.trailer.get("Encrypt").ok_or("trailer has no /Encrypt")?;
+    let encrypt_obj = e.as_ref().map(|r| r.0);
+    let ed = f.resolve(e);
+    let d = ed.as_dict().ok_or("/Encrypt is not a dictionary")?.clone();
+    let filter = f.resolve_opt(d.get("Filter"));
+    if filter.as_name() != Some(b"Standard") {
+        return Err(format!("/Encrypt /Filter is {filter:?}, only /Standard is supported"));
+    }
+    let v = f.resolve_opt(d.get("V")).as_int().unwrap_or(0);
+    let r = f.resolve_opt(d.get("R")).as_int().ok_or("/Encrypt without /R")?;
+    if !(2..=6).contains(&r) {
+        return Err(format!("unsupported revision /R {r}"));
+    }
+    if ![1, 2, 4, 5].contains(&v) {
+        return Err(format!("unsupported /V {v}"));
+    }
+    let p = f.resolve_opt(d.get("P")).as_int().ok_or("/Encrypt without integer /P")?;
+    // /P is a 32-bit quantity; writers emit it signed or unsigned
+    let p = p as u32 as i32;
+    let length_bits = f.resolve_opt(d.get("Length")).as_int().unwrap_or(40);
+    let key_len = match v {
+        1 => 5,
+        5 => 32,
+        _ => {
+            if length_bits % 8 != 0 || !(40..=128).contains(&length_bits) {
+                return Err(format!("/Length {length_bits} is not a multiple of 8 in 40..128"));
+            }
+            (length_bits / 8) as usize
+        }
+    };
+    let encrypt_metadata = match f.resolve_opt(d.get("EncryptMetadata")) {
+        Obj::Bool(b) => b,
+        _ => true,
+    };
+    let mut filters: BTreeMap<Vec<u8>, Cfm> = BTreeMap::new();
+    filters.insert(b"Identity".to_vec(), Cfm::Identity);
+    let (mut stmf, mut strf) = (Cfm::Rc4, Cfm::Rc4);
+    if v >= 4 {
+        let cf = f.resolve_opt(d.get("CF"));
+        if let Some(cfd) = cf.as_dict() {
+            for (name, val) in cfd.iter() {
+                let fd = f.resolve(val);
+                let cfm = match f.resolve_opt(fd.dict_get("CFM")).as_name() {
+                    None | Some(b"None") => Cfm::Identity,
+                    Some(b"V2") => Cfm::Rc4,
+                    Some(b"AESV2") => Cfm::AesV2,
+                    Some(b"AESV3") => Cfm::AesV3,
+                    Some(other) => return Err(format!("crypt filter /CFM /{} not supported", String::from_utf8_lossy(other))),
+                };
+                if name.as_slice() != b"Identity" {
+                    filters.insert(name.clone(), cfm);
+                }
+            }
+        }
+        let pick = |k: &str| -> Result<Cfm, String> {
+            match f.resolve_opt(d.get(k)) {
+                Obj::Null => Ok(Cfm::Identity),
+                Obj::Name(n) => filters.get(&n).copied().ok_or_else(|| format!("/{k} names the undefined crypt filter /{}", String::from_utf8_lossy(&n))),
+                other => Err(format!("/{k} is {other:?}")),
+            }
+        };
+        stmf = pick("StmF")?;
+        strf = pick("StrF")?;
+    }
+    let id0 = match f.trailer.get("ID").map(|i| f.resolve(i)) {
+        Some(Obj::Array(a)) => a.first().map(|x| f.resolve(x)).and_then(|x| x.as_str_bytes().map(|s| s.to_vec())).unwrap_or_default(),
+        _ => Vec::new(),
+    };
+    Ok(EncInfo {
+        v,
+        r: r as u8,
+        key_len,
+        p,
+        o: str_entry(&d, "O"),
+        u: str_entry(&d, "U"),
+        oe: str_entry(&d, "OE"),
+        ue: str_entry(&d, "UE"),
+        perms: str_entry(&d, "Perms"),
+        encrypt_metadata,
+        stmf,
+        strf,
+        filters,
+        id0,
+        encrypt_obj,
+    })
+}
+
+/// Result of testing one password against both roles
+#[derive(Clone, Debug, Default)]
+pub struct Auth {
+    pub user_key: Option<Vec<u8>>,
+    pub owner_key: Option<Vec<u8>>,
+}
+impl Auth {
+    pub fn which(&self) -> Option<Which> {
+        if self.owner_key.is_some() {
+            Some(Which::Owner)
+        } else if self.user_key.is_some() {
+            Some(Which::User)
+        } else {
+            None
+        }
+    }
+    pub fn key(&self) -> Option<&Vec<u8>> {
+        self.owner_key.as_ref().or(self.user_key.as_ref())
+    }
+}
+
+/// Algorithms 6 + 7 (R2–R4) or 11 + 12 + 2.A (R5, R6) for one password
+pub fn authenticate(info: &EncInfo, pw: &[u8]) -> Auth {
+    let mut a = Auth::default();
+    if info.r <= 4 {
+        let q = info.rc4_params();
+        if info.o.len() < 32 {
+            return a;
+        }
+        a.user_key = alg6_user(pw, &q);
+        a.owner_key = alg7_owner(pw, &q);
+    } else {
+        if info.o.len() < 48 || info.u.len() < 48 || info.oe.len() < 32 || info.ue.len() < 32 {
+            return a;
+        }
+        let pw = truncate_127(pw);
+        if alg11_user_ok(info.r, pw, &info.u) {
+            let ik = hash_r56(info.r, pw, &info.u[40..48], &[]);
+            a.user_key = Some(aes_cbc_decrypt_nopad(&ik, &ZERO_IV, &info.ue[..32]));
+        }
+        if alg12_owner_ok(info.r, pw, &info.o, &info.u) {
+            let ik = hash_r56(info.r, pw, &info.o[40..48], &info.u[..48]);
+            a.owner_key = Some(aes_cbc_decrypt_nopad(&ik, &ZERO_IV, &info.oe[..32]));
+        }
+    }
+    a
+}
+
+fn cipher_apply(cfm: Cfm, file_key: &[u8], num: u32, gen: u16, data: &[u8], what: &str, problems: &mut Vec<String>) -> Vec<u8> {
+    match cfm {
+        Cfm::Identity => data.to_vec(),
+        Cfm::Rc4 => rc4(&alg1_object_key(file_key, num, gen, false), data),
+        Cfm::AesV2 | Cfm::AesV3 => {
+            if data.is_empty() {
+                return Vec::new();
+            }
+            let key = if cfm == Cfm::AesV2 { alg1_object_key(file_key, num, gen, true) } else { file_key.to_vec() };
+            match pdf_aes_decrypt(&key, data) {
+                Ok(v) => v,
+                Err(e) => {
+                    problems.push(format!("object {num} {gen}: {what}: {e}"));
+                    data.to_vec()
+                }
+            }
+        }
+    }
+}
+
+fn decrypt_strings(o: &Obj, cfm: Cfm, key: &[u8], num: u32, gen: u16, problems: &mut Vec<String>) -> Obj {
+    match o {
+        Obj::Str(s) => Obj::Str(cipher_apply(cfm, key, num, gen, s, "string", problems)),
+        Obj::Array(a) => Obj::Array(a.iter().map(|x| decrypt_strings(x, cfm, key, num, gen, problems)).collect()),
+        Obj::Dict(d) => Obj::Dict(Dict(d.0.iter().map(|(k, v)| (k.clone(), decrypt_strings(v, cfm, key, num, gen, problems))).collect())),
+        other => other.clone(),
+    }
+}
+
+/// The crypt filter named by a stream's own /Filter [/Crypt …] (ISO 32000-1 §7.4.10), if it is
+/// the first filter; returns (name, dictionary with the /Crypt filter removed).
+fn explicit_crypt_filter(d: &Dict) -> Option<(Vec<u8>, Dict)> {
+    let filt = d.get("Filter")?;
+    let parms = d.get("DecodeParms").or_else(|| d.get("DP"));
+    let (first, rest_f): (&Obj, Vec<Obj>) = match filt {
+        Obj::Name(_) => (filt, vec![]),
+        Obj::Array(a) if !a.is_empty() => (&a[0], a[1..].to_vec()),
+        _ => return None,
+    };
+    if first.as_name() != Some(b"Crypt") {
+        return None;
+    }
+    let (p0, rest_p): (Option<&Obj>, Vec<Obj>) = match parms {
+        Some(Obj::Array(a)) => (a.first(), a.iter().skip(1).cloned().collect()),
+        Some(other) => (Some(other), vec![]),
+        None => (None, vec![]),
+    };
+    let name = p0.and_then(|p| p.dict_get("Name")).and_then(|n| n.as_name()).unwrap_or(b"Identity").to_vec();
+    let mut nd = d.clone();
+    nd.remove("DP");
+    if rest_f.is_empty() {
+        nd.remove("Filter");
+        nd.remove("DecodeParms");
+    } else {
+        nd.set("Filter", Obj::Array(rest_f));
+        if parms.is_some() {
+            nd.set("DecodeParms", Obj::Array(rest_p));
+        }
+    }
+    Some((name, nd))
+}
+
+/// Decrypt one indirect object that is stored outside object streams (§7.6.2).
+/// Strings use /StrF, stream data /StmF or the stream's own /Crypt filter; cross-reference
+/// streams and (with /EncryptMetadata false) metadata streams are left alone.
+pub fn decrypt_object(info: &EncInfo, file_key: &[u8], num: u32, gen: u16, o: &Obj, problems: &mut Vec<String>) -> Obj {
+    match o {
+        Obj::Stream(s) => {
+            let ty = s.dict.get("Type").and_then(|t| t.as_name());
+            if ty == Some(b"XRef") {
+                return o.clone();
+            }
+            let (method, dict) = match explicit_crypt_filter(&s.dict) {
+                Some((name, nd)) => match info.filters.get(&name) {
+                    Some(m) if info.v >= 4 => (*m, nd),
+                    _ => {
+                        problems.push(format!("object {num} {gen}: /Crypt filter /{} is not defined", String::from_utf8_lossy(&name)));
+                        (Cfm::Identity, nd)
+                    }
+                },
+                None => {
+                    if ty == Some(b"Metadata") && !info.metadata_encrypted() {
+                        (Cfm::Identity, s.dict.clone())
+                    } else {
+                        (info.stmf, s.dict.clone())
+                    }
+                }
+            };
+            let Obj::Dict(dict) = decrypt_strings(&Obj::Dict(dict), info.strf, file_key, num, gen, problems) else { unreachable!() };
+            let data = cipher_apply(method, file_key, num, gen, &s.data, "stream data", problems);
+            Obj::Stream(Box::new(StreamObj { dict, data }))
+        }
+        other => decrypt_strings(other, info.strf, file_key, num, gen, problems),
+    }
+}
+
+pub struct Unlocked {
+    pub which: Which,
+    pub auth: Auth,
+    pub info: EncInfo,
+    pub file_key: Vec<u8>,
+    /// undecryptable strings/streams met while objects were loaded (filled lazily)
+    pub problems: Arc<Mutex<Vec<String>>>,
+}
+
+/// Authenticate `password` and install per-object decryption on the file. Call right after
+/// `PdfFile::parse` (objects already loaded stay as they were). Objects inside object
+/// streams are not passed through the decryptor by `PdfFile`, so they are decrypted exactly
+/// once (as part of their containing stream); the encryption dictionary itself and
+/// cross-reference streams are never decrypted.
+pub fn unlock_ex(f: &mut PdfFile, password: &[u8]) -> Result<Unlocked, String> {
+    let info = read_enc_info(f)?;
+    let auth = authenticate(&info, password);
+    let which = auth.which().ok_or("password is neither the user nor the owner password")?;
+    let file_key = auth.key().unwrap().clone();
+    if info.r >= 5 {
+        let fk: [u8; 32] = file_key.clone().try_into().map_err(|_| "file key is not 32 bytes")?;
+        alg13_perms_check(&info.perms, &fk, info.p, info.encrypt_metadata)?;
+    }
+    let problems = Arc::new(Mutex::new(Vec::new()));
+    let (i2, k2, p2) = (info.clone(), file_key.clone(), problems.clone());
+    f.decryptor = Some(Box::new(move |num, gen, o| {
+        if Some(num) == i2.encrypt_obj {
+            return o;
+        }
+        let mut pr = Vec::new();
+        let out = decrypt_object(&i2, &k2, num, gen, &o, &mut pr);
+        if !pr.is_empty() {
+            p2.lock().unwrap().extend(pr);
+        }
+        out
+    }));
+    Ok(Unlocked { which, auth, info, file_key, problems })
+}
+
+/// `Owner` when the password authenticates as the owner password (also when it is both), else `User`.
+pub fn unlock(f: &mut PdfFile, password: &[u8]) -> Result<Which, String> {
+    unlock_ex(f, password).map(|u| u.which)
+}
+
+// ====================================================================== writing encrypted files
+
+/// Deterministic byte stream for IVs, salts and file keys of the reference writer
+/// (splitmix64; reproducibility matters here, unpredictability does not).
+pub struct Det(pub u64);
+impl Det {
+    pub fn byte(&mut self) -> u8 {
+        self.0 = self.0.wrapping_add(0x9E37_79B9_7F4A_7C15);
+        let mut z = self.0;
+        z = (z ^ (z >> 30)).wrapping_mul(0xBF58_476D_1CE4_E5B9);
+        z = (z ^ (z >> 27)).wrapping_mul(0x94D0_49BB_1331_11EB);
+        ((z ^ (z >> 31)) >> 24) as u8
+    }
+    pub fn bytes<const N: usize>(&mut self) -> [u8; N] {
+        let mut b = [0u8; N];
+        for x in b.iter_mut() {
+            *x = self.byte();
+        }
+        b
+    }
+}
+
+#[derive(Clone, Copy, Debug, PartialEq, Eq, Hash)]
+pub enum Scheme {
+    /// V1 R2, RC4 40 bit
+    R2,
+    /// V2 R3, RC4 with `key_bits` (40..128)
+    R3,
+    /// V4 R4, crypt filter /V2 (RC4 128)
+    R4Rc4,
+    /// V4 R4, crypt filter /AESV2 (AES-128)
+    R4Aes,
+    /// V5 R5 (Adobe Supplement), AESV3
+    R5,
+    /// V5 R6 (ISO 32000-2), AESV3
+    R6,
+}
+impl Scheme {
+    pub const ALL: [Scheme; 6] = [Scheme::R2, Scheme::R3, Scheme::R4Rc4, Scheme::R4Aes, Scheme::R5, Scheme::R6];
+    pub fn revision(self) -> u8 {
+        match self {
+            Scheme::R2 => 2,
+            Scheme::R3 => 3,
+            Scheme::R4Rc4 | Scheme::R4Aes => 4,
+            Scheme::R5 => 5,
+            Scheme::R6 => 6,
+        }
+    }
+    pub fn name(self) -> &'static str {
+        match self {
+            Scheme::R2 => "R2-RC4-40",
+            Scheme::R3 => "R3-RC4",
+            Scheme::R4Rc4 => "R4-RC4-128",
+            Scheme::R4Aes => "R4-AESV2",
+            Scheme::R5 => "R5-AESV3",
+            Scheme::R6 => "R6-AESV3",
+        }
+    }
+}
+
+#[derive(Clone, Debug)]
+pub struct EncSettings {
+    pub scheme: Scheme,
+    /// only used by `Scheme::R3` (multiple of 8 in 40..=128)
+    pub key_bits: u32,
+    pub user_pw: Vec<u8>,
+    pub owner_pw: Vec<u8>,
+    pub p: i32,
+    /// honoured for R4 and later (ignored, i.e. metadata encrypted, before)
+    pub encrypt_metadata: bool,
+    pub id0: Vec<u8>,
+    pub seed: u64,
+    pub xref_stream: bool,
+    /// pack all non-stream objects into one object stream (forces an xref stream)
+    pub objstm: bool,
+    /// /Encrypt as an indirect object (as qpdf writes it) instead of a direct trailer entry
+    pub encrypt_dict_indirect: bool,
+    /// give a cleartext metadata stream an explicit /Filter [/Crypt] with /Name /Identity
+    pub metadata_identity_filter: bool,
+    pub root: u32,
+    pub info: Option<u32>,
+}
+
+impl EncSettings {
+    pub fn new(scheme: Scheme, user_pw: &[u8], owner_pw: &[u8]) -> Self {
+        EncSettings {
+            scheme,
+            key_bits: 128,
+            user_pw: user_pw.to_vec(),
+            owner_pw: owner_pw.to_vec(),
+            p: -4,
+            encrypt_metadata: true,
+            id0: b"0123456789abcdef".to_vec(),
+            seed: 1,
+            xref_stream: false,
+            objstm: false,
+            encrypt_dict_indirect: true,
+            metadata_identity_filter: false,
+            root: 1,
+            info: None,
+        }
+    }
+}
+
+pub struct Encrypted {
+    pub bytes: Vec<u8>,
+    pub file_key: Vec<u8>,
+    pub encrypt_dict: Dict,
+}
+
+struct EncCtx {
+    strf: Cfm,
+    stmf: Cfm,
+    file_key: Vec<u8>,
+    det: Det,
+    metadata_encrypted: bool,
+    metadata_identity_filter: bool,
+}
+
+impl EncCtx {
+    fn apply(&mut self, cfm: Cfm, num: u32, gen: u16, data: &[u8]) -> Vec<u8> {
+        match cfm {
+            Cfm::Identity => data.to_vec(),
+            Cfm::Rc4 => rc4(&alg1_object_key(&self.file_key, num, gen, false), data),
+            Cfm::AesV2 => {
+                let iv = self.det.bytes::<16>();
+                pdf_aes_encrypt(&alg1_object_key(&self.file_key, num, gen, true), &iv, data)
+            }
+            Cfm::AesV3 => {
+                let iv = self.det.bytes::<16>();
+                pdf_aes_encrypt(&self.file_key, &iv, data)
+            }
+        }
+    }
+    fn strings(&mut self, o: &Obj, num: u32, gen: u16) -> Obj {
+        match o {
+            Obj::Str(s) => Obj::Str(self.apply(self.strf, num, gen, s)),
+            Obj::Array(a) => Obj::Array(a.iter().map(|x| self.strings(x, num, gen)).collect()),
+            Obj::Dict(d) => Obj::Dict(Dict(d.0.iter().map(|(k, v)| (k.clone(), self.strings(v, num, gen))).collect())),
+            other => other.clone(),
+        }
+    }
+    fn object(&mut self, o: &Obj, num: u32, gen: u16) -> Obj {
+        match o {
+            Obj::Stream(s) => {
+                let is_meta = s.dict.get("Type").and_then(|t| t.as_name()) == Some(b"Metadata");
+                let Obj::Dict(mut dict) = self.strings(&Obj::Dict(s.dict.clone()), num, gen) else { unreachable!() };
+                let data = if is_meta && !self.metadata_encrypted {
+                    if self.metadata_identity_filter {
+                        let ident = Obj::dict(vec![("Type", Obj::name("CryptFilterDecodeParms")), ("Name", Obj::name("Identity"))]);
+                        let (mut fl, mut pl) = (vec![Obj::name("Crypt")], vec![ident]);
+                        match dict.get("Filter").cloned() {
+                            Some(Obj::Array(a)) => {
+                                let n = a.len();
+                                fl.extend(a);
+                                match dict.get("DecodeParms").cloned() {
+                                    Some(Obj::Array(p)) => pl.extend(p),
+                                    _ => pl.extend(std::iter::repeat(Obj::Null).take(n)),
+                                }
+                            }
+                            Some(one) => {
+                                fl.push(one);
+                                pl.push(dict.get("DecodeParms").cloned().unwrap_or(Obj::Null));
+                            }
+                            None => {}
+                        }
+                        dict.set("Filter", Obj::Array(fl));
+                        dict.set("DecodeParms", Obj::Array(pl));
+                    }
+                    s.data.clone()
+                } else {
+                    self.apply(self.stmf, num, gen, &s.data)
+                };
+                dict.remove("Length");
+                Obj::Stream(Box::new(StreamObj { dict, data }))
+            }
+            other => self.strings(other, num, gen),
+        }
+    }
+}
+
+/// Encrypt a document given as plaintext indirect objects (generation 0) and write it as a
+/// complete PDF file. The layout (header, body, classic table or xref stream, one optional
+/// object stream) follows the same rules as `builder::FileBuilder`; the builder itself cannot
+/// be used because an object stream has to be encrypted *after* it is assembled.
+pub fn encrypt_file(objects: &[(u32, Obj)], s: &EncSettings) -> Vec<u8> {
+    encrypt_file_ex(objects, s).bytes
+}
+
+pub fn encrypt_file_ex(objects: &[(u32, Obj)], s: &EncSettings) -> Encrypted {
+    let mut det = Det(s.seed);
+    let r = s.scheme.revision();
+    let honour_em = r >= 4;
+    let em = if honour_em { s.encrypt_metadata } else { true };
+    // ---- encryption dictionary
+    let mut ed = Dict::new();
+    ed.set("Filter", Obj::name("Standard"));
+    let file_key: Vec<u8>;
+    let (strf, stmf);
+    match s.scheme {
+        Scheme::R2 | Scheme::R3 | Scheme::R4Rc4 | Scheme::R4Aes => {
+            let key_len = match s.scheme {
+                Scheme::R2 => 5,
+                Scheme::R3 => (s.key_bits / 8) as usize,
+                _ => 16,
+            };
+            let o = alg3_o(&s.owner_pw, &s.user_pw, r, key_len);
+            file_key = alg2_file_key(&s.user_pw, &o, s.p, &s.id0, r, key_len, em);
+            let u: Vec<u8> = if r == 2 {
+                alg4_u(&file_key).to_vec()
+            } else {
+                let mut u = alg5_u16(&file_key, &s.id0).to_vec();
+                u.extend(det.bytes::<16>());
+                u
+            };
+            match s.scheme {
+                Scheme::R2 => {
+                    ed.set("V", Obj::Int(1));
+                    ed.set("R", Obj::Int(2));
+                    (strf, stmf) = (Cfm::Rc4, Cfm::Rc4);
+                }
+                Scheme::R3 => {
+                    ed.set("V", Obj::Int(2));
+                    ed.set("R", Obj::Int(3));
+                    ed.set("Length", Obj::Int(s.key_bits as i64));
+                    (strf, stmf) = (Cfm::Rc4, Cfm::Rc4);
+                }
+                _ => {
+                    let aes = s.scheme == Scheme::R4Aes;
+                    ed.set("V", Obj::Int(4));
+                    ed.set("R", Obj::Int(4));
+                    ed.set("Length", Obj::Int(128));
+                    let cf = Obj::dict(vec![("Type", Obj::name("CryptFilter")), ("CFM", Obj::name(if aes { "AESV2" } else { "V2" })), ("AuthEvent", Obj::name("DocOpen")), ("Length", Obj::Int(16))]);
+                    ed.set("CF", Obj::dict(vec![("StdCF", cf)]));
+                    ed.set("StmF", Obj::name("StdCF"));
+                    ed.set("StrF", Obj::name("StdCF"));
+                    ed.set("EncryptMetadata", Obj::Bool(em));
+                    let m = if aes { Cfm::AesV2 } else { Cfm::Rc4 };
+                    (strf, stmf) = (m, m);
+                }
+            }
+            ed.set("O", Obj::Str(o.to_vec()));
+            ed.set("U", Obj::Str(u));
+            ed.set("P", Obj::Int(s.p as i64));
+        }
+        Scheme::R5 | Scheme::R6 => {
+            let fk: [u8; 32] = det.bytes::<32>();
+            let (uv, uk, ov, ok) = (det.bytes::<8>(), det.bytes::<8>(), det.bytes::<8>(), det.bytes::<8>());
+            let (u, ue) = alg8_u_ue(r, &s.user_pw, &fk, &uv, &uk);
+            let (o, oe) = alg9_o_oe(r, &s.owner_pw, &fk, &ov, &ok, &u);
+            let perms = alg10_perms(s.p, em, &fk, det.bytes::<4>());
+            ed.set("V", Obj::Int(5));
+            ed.set("R", Obj::Int(r as i64));
+            ed.set("Length", Obj::Int(256));
+            let cf = Obj::dict(vec![("Type", Obj::name("CryptFilter")), ("CFM", Obj::name("AESV3")), ("AuthEvent", Obj::name("DocOpen")), ("Length", Obj::Int(32))]);
+            ed.set("CF", Obj::dict(vec![("StdCF", cf)]));
+            ed.set("StmF", Obj::name("StdCF"));
+            ed.set("StrF", Obj::name("StdCF"));
+            ed.set("EncryptMetadata", Obj::Bool(em));
+            ed.set("O", Obj::Str(o.to_vec()));
+            ed.set("U", Obj::Str(u.to_vec()));
+            ed.set("OE", Obj::Str(oe.to_vec()));
+            ed.set("UE", Obj::Str(ue.to_vec()));
+            ed.set("Perms", Obj::Str(perms.to_vec()));
+            ed.set("P", Obj::Int(s.p as i64));
+            file_key = fk.to_vec();
+            (strf, stmf) = (Cfm::AesV3, Cfm::AesV3);
+        }
+    }
+    let mut cx = EncCtx { strf, stmf, file_key: file_key.clone(), det, metadata_encrypted: em, metadata_identity_filter: s.metadata_identity_filter };
+
+    // ---- body
+    #[derive(Clone, Copy)]
+    enum E {
+        Free,
+        InUse(usize),
+        Comp(u32, u32),
+    }
+    let use_xref_stream = s.xref_stream || s.objstm;
+    let mut out: Vec<u8> = Vec::new();
+    out.extend_from_slice(if r == 6 { b"%PDF-2.0\n" } else { b"%PDF-1.7\n" });
+    out.extend_from_slice(b"%\xE2\xE3\xCF\xD3\n");
+    let mut entries: BTreeMap<u32, E> = BTreeMap::new();
+    entries.insert(0, E::Free);
+    let mut next = objects.iter().map(|(n, _)| *n).max().unwrap_or(0) + 1;
+    let mut packed: Vec<(u32, &Obj)> = Vec::new();
+    let emit = |out: &mut Vec<u8>, entries: &mut BTreeMap<u32, E>, num: u32, o: &Obj| {
+        entries.insert(num, E::InUse(out.len()));
+        out.extend_from_slice(format!("{num} 0 obj\n").as_bytes());
+        write_obj(o, out);
+        out.extend_from_slice(b"\nendobj\n");
+    };
+    for (num, o) in objects {
+        if s.objstm && !matches!(o, Obj::Stream(_)) {
+            packed.push((*num, o));
+            continue;
+        }
+        let eo = cx.object(o, *num, 0);
+        emit(&mut out, &mut entries, *num, &eo);
+    }
+    let encrypt_ref = if s.encrypt_dict_indirect {
+        let n = next;
+        next += 1;
+        emit(&mut out, &mut entries, n, &Obj::Dict(ed.clone()));
+        Some(n)
+    } else {
+        None
+    };
+    if !packed.is_empty() {
+        let sn = next;
+        next += 1;
+        let (mut head, mut body) = (Vec::new(), Vec::new());
+        for (i, (n, o)) in packed.iter().enumerate() {
+            head.extend_from_slice(format!("{} {} ", n, body.len()).as_bytes());
+            write_obj(o, &mut body); // strings inside an object stream are not encrypted individually (§7.5.7)
+            body.push(b'\n');
+            entries.insert(*n, E::Comp(sn, i as u32));
+        }
+        let first = head.len();
+        head.extend_from_slice(&body);
+        let so = Obj::stream(vec![("Type", Obj::name("ObjStm")), ("N", Obj::Int(packed.len() as i64)), ("First", Obj::Int(first as i64)), ("Filter", Obj::name("FlateDecode"))], crate::filters::flate_encode(&head));
+        let eo = cx.object(&so, sn, 0);
+        emit(&mut out, &mut entries, sn, &eo);
+    }
+    // ---- cross-reference section and trailer
+    let mut tr = Dict::new();
+    tr.set("Root", Obj::Ref(s.root, 0));
+    if let Some(i) = s.info {
+        tr.set("Info", Obj::Ref(i, 0));
+    }
+    tr.set("Encrypt", match encrypt_ref {
+        Some(n) => Obj::Ref(n, 0),
+        None => Obj::Dict(ed.clone()),
+    });
+    tr.set("ID", Obj::Array(vec![Obj::Str(s.id0.clone()), Obj::Str(s.id0.clone())]));
+    let xoff = out.len();
+    if use_xref_stream {
+        let xn = next;
+        entries.insert(xn, E::InUse(xoff));
+        let size = *entries.keys().next_back().unwrap() + 1;
+        let mut data = Vec::new();
+        for k in 0..size {
+            let (t, a, b): (u8, u32, u16) = match entries.get(&k) {
+                None => (0, 0, 0),
+                Some(E::Free) => (0, 0, 65535),
+                Some(E::InUse(o)) => (1, *o as u32, 0),
+                Some(E::Comp(sn, i)) => (2, *sn, *i as u16),
+            };
+            data.push(t);
+            data.extend_from_slice(&a.to_be_bytes());
+            data.extend_from_slice(&b.to_be_bytes());
+        }
+        let mut d = Dict::new();
+        d.set("Type", Obj::name("XRef"));
+        d.set("Size", Obj::Int(size as i64));
+        d.set("W", Obj::Array(vec![Obj::Int(1), Obj::Int(4), Obj::Int(2)]));
+        for (k, v) in tr.iter() {
+            d.0.push((k.clone(), v.clone()));
+        }
+        out.extend_from_slice(format!("{xn} 0 obj\n").as_bytes());
+        write_obj(&Obj::Stream(Box::new(StreamObj { dict: d, data })), &mut out);
+        out.extend_from_slice(b"\nendobj\n");
+    } else {
+        let size = *entries.keys().next_back().unwrap() + 1;
+        out.extend_from_slice(format!("xref\n0 {size}\n").as_bytes());
+        for k in 0..size {
+            match entries.get(&k) {
+                Some(E::InUse(o)) => out.extend_from_slice(format!("{o:010} 00000 n \n").as_bytes()),
+                Some(E::Free) => out.extend_from_slice(b"0000000000 65535 f \n"),
+                // a gap in the numbering: a free entry outside the linked list
+                _ => out.extend_from_slice(b"0000000000 00001 f \n"),
+            }
+        }
+        let mut d = Dict::new();
+        d.set("Size", Obj::Int(size as i64));
+        for (k, v) in tr.iter() {
+            d.0.push((k.clone(), v.clone()));
+        }
+        out.extend_from_slice(b"trailer\n");
+        write_obj(&Obj::Dict(d), &mut out);
+        out.push(b'\n');
+    }
+    out.extend_from_slice(format!("startxref\n{xoff}\n%%EOF\n").as_bytes());
+    Encrypted { bytes: out, file_key, encrypt_dict: ed }
+}
+
+/// The same objects written without encryption, same layout options (the plaintext original
+/// of `encrypt_file`).
+pub fn plain_file(objects: &[(u32, Obj)], root: u32, info: Option<u32>, xref_stream: bool, objstm: bool) -> Vec<u8> {
+    use crate::builder::{FileBuilder, Revision, XrefForm};
+    let mut r = Revision::new(if xref_stream || objstm { XrefForm::Stream } else { XrefForm::Table });
+    for (n, o) in objects {
+        if objstm && !matches!(o, Obj::Stream(_)) {
+            r.in_objstm.insert(*n);
+        }
+        r.add(*n, o.clone());
+    }
+    let mut fb = FileBuilder::new(root);
+    fb.info = info.map(|i| (i, 0));
+    fb.revisions.push(r);
+    fb.build().bytes
+}
